@@ -3,7 +3,7 @@
    micro part: Reify.v (model of micro/reify.go and micro.Run), proofs in ReifySpec.v.
    gomini part (rewrite): the section at the end, over the term encoding of Go values (GVal.v). *)
 From Coq Require Import List NArith ZArith Bool.
-From GMK Require Import Term Unify UnifyWf UnifyTotal Goal Stream Reify ReifySpec GoLite gen.MicroGen MicroGenSpec.
+From GMK Require Import Term Unify UnifyWf UnifyTotal Goal Stream Reify ReifySpec GoLite gen.MicroGen MicroGenSpec MicroReifySpec.
 Import ListNotations.
 
 (* the reified answer is the query with all bindings applied (no bound variable remains) and the k-th distinct
@@ -50,6 +50,10 @@ Theorem C08_code_is_model : forall f v s,
 Proof. exact (fun f v s => conj (g_walkStar_spec f v s) (conj (g_reifys_spec f v s) (g_reifyS_spec f v))). Qed.
 Print Assumptions C08_code_is_model.
 
+Theorem C08_code_never_panics : forall f v s, g_reifys f v s <> Panic /\ g_reifyS f v <> Panic.
+Proof. exact reify_code_never_panics. Qed.
+Print Assumptions C08_code_never_panics.
+
 (* ReifyIntVarFromState(q)(st) = walkStar(walkStar(q, st), reifyS(walkStar(q, st))) over the generated functions *)
 Theorem C08_code_reify_var : forall f q st,
   bind (g_walkStar f (TVar q) (sub st)) (fun vv => bind (g_reifyS f vv) (fun r => g_walkStar f vv r)) = of_opt (reify_var f q st).
@@ -89,16 +93,20 @@ Print Assumptions C08g_code_kind.
 
 (* the text of gomini/unify.go: rewrite as translated from it on every run (gen/GominiGen.v) is the transcription, so on
    the generated code too nothing reachable in the answer is a bound variable, and it never panics *)
-Require GMK.GoLite GMK.GoLiteG GMK.gen.GominiGen GMK.GominiGenSpec.
+Require GMK.GoLite GMK.GoLiteG GMK.gen.GominiGen GMK.GominiGenSpec GMK.GominiRewriteSpec.
 Theorem C08g_gen_is_transcription : forall f x s,
   GominiGen.gm_rewrite f x s = GominiGenSpec.of_optg (GCore.grewrite f x s).
-Proof. exact GominiGenSpec.gm_rewrite_spec. Qed.
+Proof. exact GominiRewriteSpec.gm_rewrite_spec. Qed.
 Print Assumptions C08g_gen_is_transcription.
+
+Theorem C08g_gen_never_panics : forall f x s, GominiGen.gm_rewrite f x s <> GoLite.Panic.
+Proof. exact GominiRewriteSpec.gm_rewrite_never_panics. Qed.
+Print Assumptions C08g_gen_never_panics.
 
 Theorem C08g_gen_resolved : forall f x s r,
   Reflect.wfb x = true -> GCoreSpec.gwf_sub s -> GominiGen.gm_rewrite f x s = GoLite.Ret r ->
   forall y, GCoreSpec.subval r y -> forall i, GCore.cast_var y = Some i -> GCore.gassv i s = None.
-Proof. exact GominiGenSpec.gm_rewrite_resolved. Qed.
+Proof. exact GominiRewriteSpec.gm_rewrite_resolved. Qed.
 Print Assumptions C08g_gen_resolved.
 
 (* non-vacuity: a bound variable inside a Go MAP value and one inside a slice are both replaced, the unbound one stays *)
